@@ -307,6 +307,19 @@ def run_case(case):
                 return ("rows", f"partitions{P}.compute() differs from the selected partitions of the full collection")
         return None
 
+    if kind == "len_sel":
+        P = sel["P"]
+        want_n = sum(len(full[p]) for p in P)
+        r = e2e.run_or_err(lambda: len(x.partitions[P]))
+        if r[0] == "err":
+            rd = e2e.run_or_err(lambda: len(x.partitions[P].compute()))
+            if rd[0] == "err":
+                return None  # the data path fails as well: reported by the `partitions` checks
+            return (f"raised:{r[1]}", f"len(partitions{P}) raised {r[1]}: {r[2]}")
+        if r[1] != want_n:
+            return ("len", f"len(partitions{P}) = {r[1]}, the selected partitions of the full collection hold {want_n} rows")
+        return None
+
     if kind == "to_delayed":
         import dask
 
@@ -426,6 +439,10 @@ def selections(np_, quick, rng):
     sels.append({"kind": "to_delayed_sel", "P": allp[::-1][:2]})
     if np_ > 1:  # empty selections are outside the vetted space (Partitions._divisions raises UnboundLocalError on them)
         sels.append({"kind": "to_delayed_sel", "P": allp[1:]})
+    if np_ > 2:
+        sels.append({"kind": "len_sel", "P": [1, 2]})
+        sels.append({"kind": "len_sel", "P": [np_ - 1, 0]})
+        sels.append({"kind": "len_sel", "P": [0, 0]})
     sels.append({"kind": "to_delayed", "optimize": True})
     sels.append({"kind": "to_delayed", "optimize": False})
     for n in (2, 7, 50):
@@ -453,6 +470,15 @@ def _signature(case, what):
     The data source only enters for the bare source (chain `id`)."""
     sel = case["sel"]
     kind = "partitions" if sel["kind"] in ("partitions", "get_partition", "to_delayed_sel") else sel["kind"]
+    if kind == "len_sel":
+        try:
+            leaf = [n for n in build(case["source"], case["chain"]).expr.walk() if not n.dependencies()]
+            reader = type(leaf[0]).__name__ if leaf else "-"
+        except Exception:  # noqa: BLE001
+            reader = "-"
+        shape = _sel_shape(sel["P"])
+        return {"check": "len_sel", "reader": reader, "what": what,
+                "selection": shape if shape in ("repeated", "reordered") else "ascending"}
     mech = _MECHANISM[case["chain"]] or ("source:" + case["source"])
     if kind in ("head", "tail", "nested_head") and case["source"].startswith("read_parquet"):
         try:
@@ -469,6 +495,7 @@ def _signature(case, what):
 
 # chains that are cheap and cover every selection mechanism: run on every source; the others on a subset
 _CORE_CHAINS = ["id", "add1", "filter", "col_a", "bcast_assign", "bcast_series", "mappart_bcast", "assign_series", "mul_axis0"]
+_LEN_CHAINS = ("id", "add1", "col_a", "assign_series", "bcast_assign", "bcast_series")
 _HEAVY_CHAINS = [c for c in CHAINS if c not in _CORE_CHAINS]
 _HEAVY_SOURCES = ["from_pandas", "from_map", "from_array", "read_parquet_div"]
 _EXTRA_SOURCES = ["from_pandas_dense7", "from_pandas_12"]  # only used by MUST_RUN / replay
@@ -486,6 +513,8 @@ def all_cases(ctx, broken=()):
             except Exception:  # noqa: BLE001
                 continue
             for sel in selections(np_, ctx.quick, ctx.rng):
+                if sel["kind"] == "len_sel" and c not in _LEN_CHAINS:
+                    continue  # metadata row counts: only where the selection reaches the reader itself
                 cases.append({"source": s, "chain": c, "sel": sel})
     return cases
 
@@ -502,6 +531,9 @@ MUST_RUN = [
     {"source": "from_pandas_dense7", "chain": "repart7", "sel": {"kind": "to_delayed", "optimize": True}},  # D14
     {"source": "from_pandas_dense7", "chain": "repart7", "sel": {"kind": "partitions", "P": [5]}},          # D14
     {"source": "from_pandas", "chain": "shuffle_tasks", "sel": {"kind": "tail", "n": 2}},                 # D22
+    {"source": "from_pandas", "chain": "col_a", "sel": {"kind": "len_sel", "P": [0, 0]}},                 # D62
+    {"source": "read_parquet", "chain": "col_a", "sel": {"kind": "len_sel", "P": [1, 2]}},                # D63
+    {"source": "read_parquet_arrow", "chain": "add1", "sel": {"kind": "len_sel", "P": [5, 0]}},           # D63
     {"source": "from_pandas", "chain": "bcast_series", "sel": {"kind": "tail", "n": 2}},                  # D64 (tail, scalar operand)
     {"source": "from_pandas_one", "chain": "mul_axis0", "sel": {"kind": "head", "n": 2, "k": 1}},         # D64 (ambiguous operand)
     {"source": "from_pandas_one", "chain": "mul_axis0", "sel": {"kind": "tail", "n": 2}},
@@ -1329,7 +1361,14 @@ def fam_sort_rules(ctx):
 def families(ctx):
     return [fam_seldiv, fam_partitions_layer, fam_filtered_contract, fam_compose, fam_fromarray, fam_frompandas,
             fam_head_lower, fam_head_divisions, fam_push_rules, fam_bjoin_keys, fam_helpers, fam_sort_rules,
-            _c12_graphs]
+            _c12_graphs, _c06_pq_lengths]
+
+
+def _c06_pq_lengths(ctx):
+    """metadata lengths of the parquet readers under a selection (the length side of the PartitionsFiltered contract)"""
+    from harness.props import c06
+
+    return c06.fam_pq_lengths(ctx)
 
 
 def _c12_graphs(ctx):
